@@ -326,6 +326,12 @@ def to_dnf(t, positive=True):
                 r = _cmp_to_cons(oo, a, b)
                 if r is not None:
                     return r
+            if o in ("==", "!=") and ((a.k == "const" and isinstance(a.a[0], (bytes, bytearray, str))) or (b.k == "const" and isinstance(b.a[0], (bytes, bytearray, str)))):
+                # equality of a byte string / text with a literal: an uninterpreted proposition (same test, same atom)
+                x_, y_ = (a, b) if b.k == "const" else (b, a)
+                p = T("boolatom", T("op", "==", x_, y_, ty="bool"), ty="int")
+                holds = (o == "==") == positive
+                return [[Lin({p: 1}, -1)]] if holds else [[Lin({p: -1}, 0)]]
             return _drop()
         if o in ("in", "notin") and b.k in ("tuple", "list"):
             inn = (o == "in") == positive
